@@ -58,6 +58,10 @@ def dyadic_background(protein):
     return bg()
 
 
+# exact frequencies below this are in (or within a few binades of) the subnormal range of f32
+F32_UNDERFLOW = 2.0 ** -120
+
+
 def pseudo_st(protein):
     ab = letters(protein)
     return st.one_of(
@@ -181,7 +185,19 @@ def check_log_odds(a, info):
             else:
                 want.append(math.log(freqs[i][j] / bgv[j]) / math.log(base))
         info.comparisons += 1
-        if not rows_close(list(pssm[i]), want, 2e-4):
+        got_row = [float(x) for x in pssm[i]]
+        ok = len(got_row) == k
+        for j in range(k if ok else 0):
+            if 0.0 < freqs[i][j] < F32_UNDERFLOW and ubg[j] != 0.0 and bgv[j] != 0.0:
+                # the exact frequency is not representable as a normal f32 (a subnormal pseudocount against
+                # real counts): the f32 frequency is subnormal or zero, so any score at or below the score of
+                # the smallest normal frequency - including -inf - is what f32 arithmetic gives
+                info.cls("frequency-underflows-f32")
+                upper = math.log(F32_UNDERFLOW / bgv[j]) / math.log(base)
+                ok = ok and (got_row[j] == -math.inf or got_row[j] <= upper + 2e-4 * (1.0 + abs(upper)))
+            else:
+                ok = ok and close(got_row[j], want[j], 2e-4)
+        if not ok:
             raise Violation("log_odds:scores", "row %d, background %r, base %r: %r expected log_base(freq/background) = %r" % (i, bg, base, list(pssm[i]), want))
     info.cls("background-given", bg is not None)
     info.cls("dict-pseudocount", isinstance(pseudo, dict))
@@ -420,12 +436,10 @@ def reuse_args(draw):
 # ----------------------------------------------------------------------------- p-values
 
 
-def check_pvalue(a, info):
-    sites = a["sites"]
-    pssm = build_pssm(sites, False, a["pseudo"])
+def pvalue_queries(pssm, bg, a, info, what):
+    """pvalue / score (method 'meme') of one matrix object against the enumeration of all words."""
     rows = pssm_rows(pssm)
     m = len(rows)
-    bg = uniform_background(False)
     finite = [x for r in rows for x in r if math.isfinite(x)]
     large, small = max(finite), min(finite)
     if small == large:
@@ -443,20 +457,54 @@ def check_pvalue(a, info):
         hi = sum(q for v, q in dist.items() if v >= s32 - d - 1e-9)
         info.comparisons += 1
         if not (0.0 <= p <= 1.0):
-            raise Violation("pvalue:range", "pvalue(%r) = %r" % (s, p))
+            raise Violation("pvalue:range", "%s: pvalue(%r) = %r" % (what, s, p))
         if p < lo - 1e-9 or p > hi + 1e-9:
-            raise Violation("pvalue:envelope", "M=%d: pvalue(%r) = %r outside [P(S>=s+d), P(S>=s-d)] = [%r, %r], d = %r" % (m, s, p, lo, hi, d))
+            raise Violation("pvalue:envelope", "%s, M=%d: pvalue(%r) = %r outside [P(S>=s+d), P(S>=s-d)] = [%r, %r], d = %r" % (what, m, s, p, lo, hi, d))
         if prev is not None and p > prev + 1e-12:
-            raise Violation("pvalue:monotone", "pvalue increases at %r" % s)
+            raise Violation("pvalue:monotone", "%s: pvalue increases at %r" % (what, s))
         prev = p
     for p in a["pvalues"]:
         s = pssm.score(p)
         back = pssm.pvalue(s)
         if back > p + 1e-12:
-            raise Violation("score:roundtrip", "pvalue(score(%r)) = %r is larger" % (p, back))
+            raise Violation("score:roundtrip", "%s: pvalue(score(%r)) = %r is larger" % (what, p, back))
+    # the exported survival function of the same object (what pvalue() reads) agrees with pvalue() at both ends
+    sf = memoryview(pssm.score_distribution).tolist()
+    if any(not (0.0 <= x <= 1.0) for x in sf) or any(sf[i] > sf[i - 1] for i in range(1, len(sf))):
+        raise Violation("score_distribution:sf", "%s: sf is not a non-increasing sequence in [0,1]" % what)
+    info.comparisons += 1
+    if not close(sf[0], pssm.pvalue(attain[0] - 1 - d), 1e-9):
+        raise Violation("score_distribution:sf", "%s: sf[0] = %r but pvalue(below the minimum) = %r" % (what, sf[0], pssm.pvalue(attain[0] - 1 - d)))
     if abs(pssm.max_score() - sum(max(r[:4]) for r in rows)) > 1e-3:
-        raise Violation("max_score", "max_score() = %r expected %r" % (pssm.max_score(), sum(max(r[:4]) for r in rows)))
-    info.nontrivial = m >= 2 and len(attain) >= 3
+        raise Violation("max_score", "%s: max_score() = %r expected %r" % (what, pssm.max_score(), sum(max(r[:4]) for r in rows)))
+    return m, len(attain)
+
+
+def check_pvalue(a, info):
+    sites = a["sites"]
+    bg = a.get("bg")
+    motif = lightmotif.create(sites, protein=False)
+    pwm = motif.counts.normalize(a["pseudo"])
+    pssm = pwm.log_odds(bg) if bg is not None else pwm.log_odds()
+    bgv = uniform_background(False) if bg is None else [float(bg.get(c, 0.0)) for c in DNA]
+    cur, what, asked, m, n_att = pssm, "pssm", 0, 0, 0
+    # a history on one chain of objects: queries and reverse complements in a generated order (the
+    # background is a property of the matrix and is not mirrored, so the oracle mirrors the rows only)
+    for op in a.get("order", "q"):
+        if op == "q":
+            m, n_att = pvalue_queries(cur, bgv, a, info, what)
+            asked += 1
+        else:
+            before = pssm_rows(cur)
+            cur = cur.reverse_complement()
+            what += ".reverse_complement()"
+            if pssm_rows(cur) != reverse_complement_rows(before):
+                raise Violation("revcomp:mirror", "reverse_complement() is not the mirrored matrix")
+    asym = bg is not None and (bgv[0] != bgv[2] or bgv[1] != bgv[3])
+    info.cls("background-given", bg is not None)
+    info.cls("strand-asymmetric-background", asym)
+    info.cls("queried-before-and-after-reverse-complement", "qrq" in a.get("order", "q").replace("rr", ""))
+    info.nontrivial = m >= 2 and n_att >= 3
 
 
 @st.composite
@@ -464,6 +512,8 @@ def pvalue_args(draw):
     return {
         "sites": draw(sites_st(False, min_n=2, max_n=8, min_w=1, max_w=5)),
         "pseudo": draw(st.sampled_from([0.1, 0.25, 1.0])),
+        "bg": draw(st.one_of(st.none(), dyadic_background(False))),
+        "order": draw(st.sampled_from(["q", "q", "qrq", "rq", "qrqrq", "qrrq"])),
         "picks": draw(st.lists(st.integers(0, 10 ** 6), min_size=2, max_size=6)),
         "scores": draw(st.lists(st.floats(-30, 30, width=32, allow_nan=False), max_size=3)),
         "pvalues": draw(st.lists(st.floats(1e-6, 0.999, allow_nan=False), max_size=4)),
@@ -694,8 +744,8 @@ SUBS = [
         scan_args(), check_scan, 300, 6000),
     Sub("reuse", "one StripedSequence object reused by 1..8 operations (calculate, scan, calculate with the reverse complement) with up to 4 motifs of different widths (1..30) in a generated order; every result equals the reference for that motif; non-trivial = >= 2 ops, >= 2 distinct widths, L > 32",
         reuse_args(), check_reuse, 200, 4000),
-    Sub("pvalue", "DNA motif of width 1..5 -> pvalue / score (method='meme') against a full Python enumeration of all 4^M words: P(S>=s+d) <= pvalue(s) <= P(S>=s-d), monotone, pvalue(score(p)) <= p, max_score; non-trivial = width >= 2 with >= 3 attainable scores",
-        pvalue_args(), check_pvalue, 150, 3000),
+    Sub("pvalue", "DNA motif of width 1..5 under the uniform or a generated (strand-asymmetric) background, then a generated history of queries and reverse_complement() calls on the chain of matrix objects (query, mirror, query again, ...) -> pvalue / score (method='meme') of each object against a full Python enumeration of all 4^M words of ITS rows: P(S>=s+d) <= pvalue(s) <= P(S>=s-d), monotone, pvalue(score(p)) <= p, max_score; non-trivial = width >= 2 with >= 3 attainable scores",
+        pvalue_args(), check_pvalue, 300, 4000),
     Sub("reverse_complement", "DNA motif x sequence: reverse_complement() is the mirrored matrix, an involution, and scores position L-M-i of the reverse-complemented sequence like the original scores position i; non-trivial = width >= 2, non-palindromic, >= 1 position",
         revcomp_args(), check_revcomp, 200, 4000),
     Sub("load", "1..5 records written in JASPAR / JASPAR 2016 / TRANSFAC / UniPROBE syntax (DNA and protein, symbol subsets, CRLF) loaded from a path or a BytesIO; names, metadata, counts and pwm / pssm rows equal the written data pushed through the definitions; non-trivial = >= 2 records",
